@@ -203,7 +203,7 @@ def tempoChange (s : Song) (tempo : Int) : Song :=
 
 def toLoopTok (t : Tok) : Loop.Tok Tok :=
   match t.ty, t.data with
-  | .loopBegin, [.int n] => if n < 0 then .other t else .lbegin n.toNat
+  | .loopBegin, [.int n] => .lbegin n.toNat      -- (a negative count is no count: `Int.toNat` of it is 0)
   | .loopBreak, _ => .lbreak
   | .loopEnd, _ => .lend
   | _, _ => .other t
